@@ -67,10 +67,58 @@ def scripted_history():
     return specs, evos
 
 
+def two_app_history():
+    """two apps whose evolutions carry the same labels (labels are only unique within an app's SEQUENCE) and
+    become pending in different versions: V1 ships vapp's `add_fields`, V2 ships wapp's `add_fields`, V3 ships
+    `cleanup` of both"""
+    def fld(name, t, **attrs):
+        return {'name': name, 'type': t, 'attrs': attrs, 'related': None}
+
+    def mdl(app, name, fields):
+        return {'name': name, 'table': '%s_%s' % (app, name.lower()), 'unique_together': [], 'index_together': [],
+                'indexes': [], 'constraints': [], 'fields': [fld('id', 'AutoField', primary_key=True)] + fields}
+
+    def project(alpha, wal):
+        return {'apps': [{'id': 'vapp', 'models': [mdl('vapp', 'Alpha', alpha)]},
+                         {'id': 'wapp', 'models': [mdl('wapp', 'Wal', wal)]}]}
+    a0 = [fld('a', 'IntegerField', null=True), fld('old', 'IntegerField', null=True)]
+    w0 = [fld('w', 'CharField', max_length=10, null=True), fld('old', 'IntegerField', null=True)]
+    a1 = a0 + [fld('email', 'CharField', max_length=30, null=True)]
+    w1 = w0 + [fld('pages', 'IntegerField')]
+    specs = [project(a0, w0), project(a1, w0), project(a1, w1), project(a1[:1] + a1[2:], w1[:1] + w1[2:])]
+    evos = [
+        {'app': 'vapp', 'label': 'add_fields', 'mutations': [
+            {'t': 'AddField', 'model': 'Alpha', 'field': 'email', 'ftype': 'CharField', 'initial': None,
+             'attrs': [['max_length', '30'], ['null', 'true']]}]},
+        {'app': 'wapp', 'label': 'add_fields', 'mutations': [
+            {'t': 'AddField', 'model': 'Wal', 'field': 'pages', 'ftype': 'IntegerField', 'initial': '1', 'attrs': []}]},
+        [{'app': 'vapp', 'label': 'cleanup', 'mutations': [{'t': 'DeleteField', 'model': 'Alpha', 'field': 'old'}]},
+         {'app': 'wapp', 'label': 'cleanup', 'mutations': [{'t': 'DeleteField', 'model': 'Wal', 'field': 'old'}]}],
+    ]
+    return specs, evos
+
+
+def parts(i, e):
+    """the (app, label, mutations) evolutions that version i+1 adds"""
+    if isinstance(e, dict):
+        return [(e['app'], e['label'], e['mutations'])]
+    if e and isinstance(e[0], dict) and 'app' in e[0]:
+        return [(x['app'], x['label'], x['mutations']) for x in e]
+    return [('vapp', 'e%d' % (i + 1), e)]
+
+
+def muts_of(e):
+    return [m for _, _, ms in parts(0, e) for m in ms]
+
+
 def install(specs, evos, version):
     evorig.install_models(specs[version])
-    evorig.set_evolutions('vapp', [{'label': 'e%d' % (i + 1), 'mutations': [sigs.real_mutation(m) for m in evos[i]]}
-                                   for i in range(version)])
+    per = {}
+    for i in range(version):
+        for app, label, muts in parts(i, evos[i]):
+            per.setdefault(app, []).append({'label': label, 'mutations': [sigs.real_mutation(m) for m in muts]})
+    for app in ('vapp', 'wapp'):
+        evorig.set_evolutions(app, per.get(app, []))
 
 
 def drive(how):
@@ -103,9 +151,11 @@ def final_state():
     stored = Version.objects.current_version().signature
     target = ProjectSignature.from_database('default')
     d = Diff(stored, target)
-    return {'schema': {t: v for t, v in dbrig.abs_schema().items() if t.startswith('vapp_')},
-            'rows': {t: v for t, v in dbrig.abs_rows().items() if t.startswith('vapp_')},
-            'labels': sorted(e[1] for e in bk['evolutions'] if e[0] == 'vapp'),
+    mine = ('vapp_', 'wapp_')
+    return {'schema': {t: v for t, v in dbrig.abs_schema().items() if t.startswith(mine)},
+            'rows': {t: v for t, v in dbrig.abs_rows().items() if t.startswith(mine)},
+            'labels': sorted((e[1] if e[0] == 'vapp' else '%s:%s' % (e[0], e[1])) for e in bk['evolutions']
+                             if e[0] in ('vapp', 'wapp')),
             'sig_matches_models': d.is_empty(ignore_apps=True) and Diff(target, stored).is_empty(ignore_apps=True)}
 
 
@@ -124,7 +174,7 @@ def second_run():
 def run(ctx):
     evorig.setup()
     quick = ctx.tier == 'quick'
-    ctx.rule = ('linear histories V0..Vn (n<=3 quick, <=4 thorough) of one app, each step a generated evolution of 1-3 '
+    ctx.rule = ('linear histories V0..Vn (n<=3 quick, <=4 thorough) of one app (plus a two-app history whose apps reuse evolution labels), each step a generated evolution of 1-3 '
                 'mutations in SEQUENCE; for every start point i: stepwise and direct upgrades with identical initial rows, '
                 'and a fresh install of Vn; front ends Evolver.evolve, `evolve --execute`, `migrate`; non-trivial = n>=2')
     nh = 16 if quick else 150
@@ -137,6 +187,9 @@ def run(ctx):
         if tries == 1:
             h = scripted_history()
             n = 3
+        elif tries == 2:
+            h = two_app_history()
+            n = 3
         else:
             h = gen_history(ctx.rng, n)
         if h is None:
@@ -144,8 +197,8 @@ def run(ctx):
         specs, evos = h
         how = ctx.rng.choice(['evolver', 'evolve', 'migrate'])
         seed = ctx.seed * 613 + tries
-        rep = {'specs': [specs[0]], 'evolutions': evos, 'front_end': how, 'seed': seed}
-        flat = [m for e in evos for m in e]
+        rep = {'specs': specs if tries == 2 else [specs[0]], 'evolutions': evos, 'front_end': how, 'seed': seed}
+        flat = [m for e in evos for m in muts_of(e)]
         # fresh install of Vn
         evorig.fresh_databases()
         evorig.clear_evolutions()
@@ -179,11 +232,11 @@ def run(ctx):
                 if not ok:
                     ctx.count('path_failed:%s' % path)
                     r = dict(rep, start=i, path=path, error=err)
-                    seg = [m for e in evos[i:] for m in e]
+                    seg = [m for e in evos[i:] for m in muts_of(e)]
                     if 'constraint failed' in (err or ''):
                         ctx.count('path_failed:data_violates_new_constraint')   # not a defect: the rows do
                     elif name_reuse(seg) or touches_renamed_model(seg) or \
-                            any(name_reuse(e) for e in evos[i:]):
+                            any(name_reuse(muts_of(e)) for e in evos[i:]):
                         opt_w = opt_w or r
                     elif 'no such index' in (err or '') or 'DatabaseStateError' in (err or ''):
                         ctx.count('path_failed_known_C01')
@@ -194,16 +247,16 @@ def run(ctx):
                 results[(i, path)] = st
                 req, diff_empty, writes = second_run()
                 ctx.case({'n': n, 'start': i, 'path': path, 'front_end': how,
-                          'evolutions': [[sigs.model_mutation(m) for m in e] for e in evos]}, nontrivial=n >= 2,
+                          'evolutions': [[sigs.model_mutation(m) for m in muts_of(e)] for e in evos]}, nontrivial=n >= 2,
                          sample_cap=4)
                 ctx.count('path:%s' % path)
                 ctx.count('front_end:%s' % how)
                 r = dict(rep, start=i, path=path)
-                seg = [m for e in evos[i:] for m in e]
+                seg = [m for e in evos[i:] for m in muts_of(e)]
                 # batches in which a name changes existence more than once are mis-optimised (C03 finding
                 # F20): what the run then leaves behind is attributed to that finding, nothing else is
                 excused = (path == 'direct' and (name_reuse(seg) or touches_renamed_model(seg) or initial_rollup(seg))) \
-                    or any(name_reuse(e) or touches_renamed_model(e) for e in evos[i:])
+                    or any(name_reuse(muts_of(e)) or touches_renamed_model(muts_of(e)) for e in evos[i:])
 
                 def report(what):
                     nonlocal opt_w
@@ -247,7 +300,7 @@ def run(ctx):
             a, b = results.get((i, 'stepwise')), results.get((i, 'direct'))
             if a is None or b is None:
                 continue
-            seg = [m for e in evos[i:] for m in e]
+            seg = [m for e in evos[i:] for m in muts_of(e)]
             r = dict(rep, start=i)
             if a['rows'] != b['rows'] or dbrig.schema_diff(a['schema'], b['schema']):
                 ctx.count('stepwise_vs_direct_differ')
@@ -279,6 +332,9 @@ def replay(ctx, obj):
     sig = dbrig.sig_from_models(dbrig.build_models(spec0))
     specs = [spec0]
     for e in evos:
+        if len(r['specs']) == len(evos) + 1:
+            specs = r['specs']         # a recorded multi-app history carries every version
+            break
         sig = sigs.real_simulate(sig, 'vapp', [sigs.real_mutation(m) for m in e])[1]
         sp = dbrig.spec_from_sig(sig)
         sp['apps'] = [a for a in sp['apps'] if a['id'] == 'vapp']
